@@ -39,9 +39,14 @@ var c11Frames = map[string]string{
 	"errnullp":  `{"error":"x.y.E","parameters":null}`,
 	"mnfnop":    `{"error":"org.varlink.service.MethodNotFound"}`,
 	"ipnullp":   `{"error":"org.varlink.service.InvalidParameter","parameters":null}`,
+	// error names no conforming service sends: no dot at all, only a dot, an empty interface part, an unknown name in the reserved namespace
+	"errnodot": `{"error":"Failed"}`,
+	"errdot":   `{"error":".","parameters":{"k":"v"}}`,
+	"errlead":  `{"error":".MethodNotFound","parameters":{"method":"M"}}`,
+	"errsvcx":  `{"error":"org.varlink.service.Unknown","parameters":{"x":1}}`,
 }
 
-var c11Order = []string{"empty", "params", "cont", "err", "mnf", "mnfbad", "null", "array", "number", "string", "contx", "err5", "params5", "errempty", "trunc", "badutf", "zero", "big", "contfalse", "errnop", "errnullp", "mnfnop", "ipnullp"}
+var c11Order = []string{"empty", "params", "cont", "err", "mnf", "mnfbad", "null", "array", "number", "string", "contx", "err5", "params5", "errempty", "trunc", "badutf", "zero", "big", "contfalse", "errnop", "errnullp", "mnfnop", "ipnullp", "errnodot", "errdot", "errlead", "errsvcx"}
 
 type c11Desc struct {
 	Frames []string `json:"frames,omitempty"`
